@@ -132,7 +132,7 @@ func init() {
 		Rule:        "EXHAUSTIVE: every 0-, 1- and 2-byte string and every 3-byte string with a lead byte >= 0x80 (8,454,401 strings); plus a position sweep (one or two invalid bytes at every offset of plain strings of every length 1..72), generated 4-byte boundary sequences and longer strings, generated value trees with invalid UTF-8 in strings and keys at every depth (argument snapshot compared, result scribbled to expose shared containers), and W3 documents decoded by ReadValue and compared with encoding/json when no keys collide; distinct by construction; non-trivial = not valid UTF-8 (strings), every tree, every compared document",
 		Assumptions: commonAssumptions, MinEvals: 10000000,
 		Exhaustive:  "all byte strings of length <= 2 and all 3-byte strings with lead byte >= 0x80 are enumerated completely in both tiers",
-		MinCounters: map[string]int64{"exhaustive_space_completed": 1, "position_sweep_cases": 50000, "invalid_utf8_replaced": 5000000, "valid_utf8_identity_checked": 50000, "trees_converted": 50000, "decoded_documents_compared_with_encoding_json": 10000}})
+		MinCounters: map[string]int64{"exhaustive_space_completed": 1, "position_sweep_cases": 50000, "invalid_utf8_replaced": 5000000, "valid_utf8_identity_checked": 50000, "trees_converted": 50000, "deep_trees_converted": 7, "decoded_documents_compared_with_encoding_json": 10000}})
 }
 
 func init() {
@@ -155,7 +155,7 @@ func init() {
 
 func init() {
 	register(&Spec{ID: "C20", Run: RunC20, Shards: 8, Env: []string{"GOMAXPROCS=1"},
-		Rule:        "cases are (i) growth series: 57 adversarial document families (incl. the 24-shape hint-propagation product grandparent x parent x elder sibling x child) (a large container followed by many small siblings as array elements / object values / two levels down, failing siblings, escapes at every nesting level, many short escaped strings or keys, deep arrays/objects/mixtures up to depth 9,600, flat and long tokens, long runs of \\u escapes and surrogate pairs in values and keys) x 8 entry points (ReadValue, reused ValueReader, Valid and SkipValue with nil/reused buffer, SkipValueFast, Handle*Values with a declining and with a re-entrant decoding handler), each measured with runtime.MemStats.TotalAlloc at n, 2n, 4n; and (ii) histories: 10 large documents x 11 small/failing documents x 9 reused-reader/buffer entry points (incl. mixed entry points on one reader), one large call followed by 300 (quick) / 3,000 (thorough) small calls, each measured separately; GOMAXPROCS=1 and GC off during each measurement make the figures reproducible; every series and history is a distinct non-trivial case",
+		Rule:        "cases are (i) growth series: 64 adversarial document families (incl. the 24-shape hint-propagation product grandparent x parent x elder sibling x child) (a large container followed by many small siblings as array elements / object values / two levels down, failing siblings, escapes at every nesting level, many short escaped strings or keys, deep arrays/objects/mixtures up to depth 9,600, flat and long tokens, long runs of \\u escapes and surrogate pairs in values and keys) x 8 entry points (ReadValue, reused ValueReader, Valid and SkipValue with nil/reused buffer, SkipValueFast, Handle*Values with a declining and with a re-entrant decoding handler), each measured with runtime.MemStats.TotalAlloc at n, 2n, 4n; and (ii) histories: 10 large documents x 11 small/failing documents x 9 reused-reader/buffer entry points (incl. mixed entry points on one reader), one large call followed by 300 (quick) / 3,000 (thorough) small calls, each measured separately; GOMAXPROCS=1 and GC off during each measurement make the figures reproducible; every series and history is a distinct non-trivial case",
 		Assumptions: append([]string{"'a fixed constant multiple' is judged with explicit thresholds recorded in the evidence samples: growth ratio < 2.5 over a 4x size step for series allocating >= 256 KB, <= 16 KB per input byte + 1 MB absolutely, and <= 64 bytes per input byte + 8 KB for every small call after the third one following a large document"}, commonAssumptions...),
 		MinEvals:    50000,
 		MinCounters: map[string]int64{"growth_series_measured": 400, "growth_series_judged": 20, "histories_measured": 900}})
